@@ -5,7 +5,7 @@ import ast
 from typing import Dict, List, Optional, Set, Tuple
 
 from ..cfg import CFG, walk_node
-from ..model import AnalysisError, FuncInfo, Repo, call_np, dotted, expand_src, method_call, single_defs, src, walk_no_nested
+from ..model import AnalysisError, FuncInfo, Repo, call_np, dotted, expand_ast, expand_src, method_call, single_defs, src, walk_no_nested
 from ..report import Ob, bad, note, ok, skip
 from ..symalg import Folder, Mat, Poly, Unfoldable
 from . import rule
@@ -285,6 +285,20 @@ def valid(repo: Repo) -> List[Ob]:
             raise AnalysisError("VALID: no product-space write found in CompositeEnvelope.combine")
         return all(cfg.must_pass_through(w, headers) for w in writes)
 
+    def shape_rejected(fi: FuncInfo) -> bool:
+        """a comparison of an operator's `.shape` decides a rejection: in a loop with a raise/assert, or collected by a comprehension /
+        generator (any(...), next(...)) whose result is tested before a raise"""
+        for l in walk_no_nested(fi.node):
+            if isinstance(l, ast.For) and ".shape" in src(l) and any(isinstance(y, (ast.Raise, ast.Assert)) for y in ast.walk(l)):
+                return True
+        for i in [x for x in walk_no_nested(fi.node) if isinstance(x, ast.If) and any(isinstance(y, ast.Raise) for b in x.body for y in [b] + list(walk_no_nested(b)))]:
+            if ".shape" in expand_src(fi.node, i.test, depth=4):
+                return True
+        for a in [x for x in walk_no_nested(fi.node) if isinstance(x, ast.Assert)]:
+            if ".shape" in expand_src(fi.node, a.test, depth=4) and any(isinstance(y, (ast.GeneratorExp, ast.ListComp)) for y in ast.walk(expand_ast(fi.node, a.test, 4))):
+                return True
+        return False
+
     checks = [
         ("CompositeEnvelope.combine", "destroyed-operand", live_operands,
          "a destroyed subsystem is no longer rejected before the product spaces are rewritten: the call fails later, inside the assembly, with the absorbed product spaces already emptied"),
@@ -304,8 +318,8 @@ def valid(repo: Repo) -> List[Ob]:
         ("CompositeEnvelope.resize_fock", "fock-only", lambda f: has_raise_under(f, lambda t: "isinstance(" in t and "Fock" in t), "resizing a non-Fock subsystem is no longer rejected"),
         ("CompositeEnvelope.resize_fock", "member-only", lambda f: has_raise_under(f, lambda t: "self.state_objs" in t), "resizing a Fock space of another composite is no longer rejected"),
         ("CompositeEnvelope.apply_kraus", "unique-targets", lambda f: has_raise_under(f, lambda t: "len(states)" in t and "set(states)" in t), "duplicate targets are no longer rejected"),
-        ("CompositeEnvelope.measure_POVM", "operator-dimensions", lambda f: any(isinstance(l, ast.For) and ".shape" in src(l) and any(isinstance(y, ast.Raise) for y in ast.walk(l)) for l in walk_no_nested(f.node)), "POVM operators of the wrong size are no longer rejected"),
-        ("CustomState.measure_POVM", "operator-dimensions", lambda f: any(isinstance(l, ast.For) and ".shape" in src(l) and any(isinstance(y, (ast.Raise, ast.Assert)) for y in ast.walk(l)) for l in walk_no_nested(f.node)), "POVM operators of the wrong size are no longer rejected"),
+        ("CompositeEnvelope.measure_POVM", "operator-dimensions", shape_rejected, "POVM operators of the wrong size are no longer rejected"),
+        ("CustomState.measure_POVM", "operator-dimensions", shape_rejected, "POVM operators of the wrong size are no longer rejected"),
         ("ProductState.apply_operation", "operand-count", lambda f: has_assert(f, lambda t: "len(states)" in t and "expected_base_state_types" in t), "a composite operation with the wrong number of operands is no longer rejected"),
         ("ProductState.apply_operation", "operand-types", lambda f: has_assert(f, lambda t: "isinstance(s" in t and "expected_base_state_types[i]" in t), "operands of the wrong kind are no longer rejected (k-th type vs k-th operand)"),
         ("ProductState.apply_operation", "single-target-type:fock", lambda f: has_assert(f, lambda t: t.replace(" ", "") == "isinstance(states[0],Fock)"), "a Fock operation on a non-Fock product-space member is no longer rejected"),
@@ -472,8 +486,17 @@ def dim_floor(repo: Repo) -> List[Ob]:
                     var = r
                 if var and any(isinstance(st, ast.Assign) and src(st.targets[0]) == var and X(st.value) == "num_quanta+1" for st in i.body):
                     good = True
+                # result variable form:  if est < floor: r = floor  else: r = est
+                if var and i.orelse and any(isinstance(st, ast.Assign) and X(st.value) == "num_quanta+1" for st in i.body) \
+                        and any(isinstance(st, ast.Assign) and src(st.value) == var for st in i.orelse) \
+                        and {src(st.targets[0]) for st in i.body if isinstance(st, ast.Assign)} == {src(st.targets[0]) for st in i.orelse if isinstance(st, ast.Assign)}:
+                    good = True
         for b in arm.body:
             if isinstance(b, ast.Return) and "max(" in src(b.value) and "num_quanta+1" in X(b.value):
+                good = True
+        for x_ in [y for b in arm.body for y in ast.walk(b) if isinstance(y, ast.IfExp) and isinstance(y.test, ast.Compare) and len(y.test.ops) == 1]:
+            l_, r_ = X(x_.test.left), X(x_.test.comparators[0])
+            if isinstance(x_.test.ops[0], ast.Lt) and r_ == "num_quanta+1" and X(x_.body) == "num_quanta+1" and src(x_.orelse).replace(" ", "") == src(x_.test.left).replace(" ", ""):
                 good = True
         (obs.append(ok("DIM-FLOOR", fcd, f"floor:{mem}", P, arm.body[0], "estimated dimension is raised to num_quanta + 1 when smaller")) if good else
          obs.append(bad("DIM-FLOOR", fcd, f"floor:{mem}", P, arm.body[0], f"{mem}: the estimated dimension can be smaller than the highest occupied level + 1: the resize before the operation would have to cut population (and is refused), leaving operator and state sizes inconsistent")))
@@ -505,11 +528,13 @@ def partner(repo: Repo) -> List[Ob]:
                         (obs.append(ok("PARTNER", fi, f"partner#{k}", props, s, f"partner of a {cls} is the envelope's {want}")) if got == want else
                          obs.append(bad("PARTNER", fi, f"partner#{k}", props, s, f"the partner of a {cls} is looked up as the envelope's {got}: the subsystem is paired with itself and its real partner is skipped")))
             # conditional expression form:  a if isinstance(s, Polarization) else b
-            if isinstance(x, ast.IfExp) and isinstance(x.test, ast.Call) and src(x.test.func) == "isinstance" and len(x.test.args) == 2 \
-                    and isinstance(x.body, ast.Attribute) and isinstance(x.orelse, ast.Attribute) and ".envelope." in src(x.body):
+            xt = expand_ast(fi.node, x.test) if isinstance(x, ast.IfExp) else None     # a named predicate is read through its definition
+            if isinstance(x, ast.IfExp) and isinstance(xt, ast.Call) and src(xt.func) == "isinstance" and len(xt.args) == 2 \
+                    and isinstance(x.body, ast.Attribute) and isinstance(x.orelse, ast.Attribute) and x.body.attr in ("fock", "polarization") \
+                    and (".envelope." in src(x.body) or expand_src(fi.node, x.body.value).endswith("envelope")):
                 k += 1
                 n += 1
-                cls = src(x.test.args[1])
+                cls = src(xt.args[1])
                 want_t, want_f = {"Polarization": ("fock", "polarization"), "Fock": ("polarization", "fock")}.get(cls, (None, None))
                 if want_t is None:
                     continue
